@@ -253,6 +253,18 @@ func (w *inotify) AddWith(path string, opts ...addOpt) error {
 				return nil
 			}
 
+			// Spell a directory the way its events are spelled: the path of
+			// the watch, a separator, the entry. WalkDir cleans "./sub" to
+			// "sub", and a rename inside a tree rooted at "." (or the Remove
+			// of that tree) would then not find it.
+			if root != path {
+				rel, err := filepath.Rel(path, root)
+				if err != nil {
+					return err
+				}
+				root = path + "/" + rel
+			}
+
 			// Send a Create event when adding new directory from a recursive
 			// watch; this is for "mkdir -p one/two/three". Usually all those
 			// directories will be created before we can set up watchers on the
